@@ -207,6 +207,17 @@ Definition canonical_ok (nw : list (Z * Z)) (gtree : option (nat * snode)) (qa q
   | None => true
   end.
 
+(* the known finding `canonical-long-write`: the range is fully written, some write spans 10 slots or more, and the cover
+   is not the canonical decomposition (a bucket contained in a write gets a profile and no children, so nothing below it
+   is pre-aggregated; Get's partial-overlap branch never fires because a node's children slice always has length 10) *)
+Definition canonical_long_write (nw : list (Z * Z)) (gtree : option (nat * snode)) (qa qb : Z) (keys : list skey) : bool :=
+  match gtree with
+  | Some (lvl, SNode t _ _ _ _) =>
+      existsb (fun w => 10 <=? snd w - fst w) nw && (qb - qa <=? 1500) && all_slots_written (Z.to_nat (qb - qa)) qa nw
+      && negb (list_eqb skey_eqb keys (s_canon lvl t qa qb))
+  | None => false
+  end.
+
 Record qres := { qr_a : Z; qr_b : Z; qr_sum : vec }.
 
 Definition check_query (n : nat) (nw : list (Z * Z)) (E : vstore) (gtree : option (nat * snode))
@@ -236,7 +247,9 @@ Definition check_query (n : nat) (nw : list (Z * Z)) (E : vstore) (gtree : optio
           spec (canonical_ok nw gtree qa qb keys)
                "fully written range, short writes: the cover is not the canonical power-of-ten decomposition";
           corr (list_eqb gcb_eqb (sort_gcbs (s_get qa qb model)) (sort_gcbs g))
-               "s_get model differs from Segment.Get callbacks"
+               "s_get model differs from Segment.Get callbacks";
+          (* after the comparison with the model, so that only a cover the model predicts too is attributed to it *)
+          if canonical_long_write nw gtree qa qb keys then Known "canonical-long-write" else Ok
         ] in
       (v, match s with Some sv => Some {| qr_a := qa; qr_b := qb; qr_sum := sv |} | None => None end)
   end.
